@@ -17,6 +17,24 @@ def P(variants, quick_s, thorough_s, rule, probes=None, probes_thorough=None, as
     return d
 
 PROPS = {
+    "C14": P(["asan"], 30, 900,
+             "plans = 1..20 URL texts per run (4/5 assembled from component tuples over small alphabets with each optional part present/absent, 1/5 arbitrary byte strings), "
+             "one simulated name-service table per run (7 bits: tcp/udp/ip protocols, http/ftp/dns services, a service whose protocol is missing), two stack paints per URL; "
+             "oracle = reference splitter + port rule + canonical unparse + parse(unparse) round trip + identical components under both paints + allocator ledger; "
+             "distinct = distinct trace hash; non-trivial = >= 3 URLs",
+             probes=["wellformed_url", "proto_is_protocol_name", "service_found_tcp", "service_found_udp_only", "service_proto_missing", "colon_in_password", "query_without_path"]),
+    "C15": P(["plain5", "plain"], 30, 900,
+             "plans = (a) 3..80 tracked malloc/calloc/realloc/strdup/free calls over 12 pointer slots (through spifmem_* and through the MALLOC/REALLOC/FREE macros as library code sees them), "
+             "NULL/zero-size/unknown-pointer cases, untracked prefix at runtime level 4, simulated allocator underneath deciding moves and immediate address reuse; tracker table compared with a "
+             "shadow live-set after every call; (b) on the DEBUG=5 build, object-API programs at runtime level 5 that must end with an empty table; the DEBUG=4 build runs the macro histories "
+             "for allocation-semantics equality; distinct = distinct trace hash; non-trivial = >= 3 ops",
+             probes=["realloc_moved", "address_reused_after_free", "remove_from_middle", "realloc_to_zero", "realloc_of_null", "unknown_pointer_free", "filename_truncated",
+                     "via_macros", "object_program_on_tracking_build", "tracking_switched_on"]),
+    "C17": P(["asan"], 30, 900,
+             "plans = 1..20 comparisons per run: pairs of generated well-formed versions (N(.N)*[word[N]], words incl. snap/pre/alpha/beta/rc), near-identical pairs, and wild strings of "
+             "letter/digit/punctuation runs with lengths biased to 1, 126..129, 200, 1000; arguments are exact-size simulated blocks; each comparison runs under two stack paints, after "
+             "another call, in both argument orders and against itself; reference comparator on well-formed pairs where the statement defines the order; distinct = distinct trace hash; non-trivial = >= 3 comparisons",
+             probes=["wellformed_pair", "prerelease_word_pair", "suffix_vs_bare", "run_longer_than_127"]),
     "C05": P(["asan"], 30, 900,
              "plans = seeded programs (4..30 ops) over a pool of 6 objects drawn from 16 kinds (str, ustr, mbuff, objpair, tok, url, regexp, list/vector/map x array/linked_list/dlinked_list; "
              "vobj or str elements) with make/mutate/query/dup/done+re-init/del; allocator policies incl. garbage fill, immediate address reuse and far-apart placement; "
